@@ -778,6 +778,12 @@ func TestC10ThroughSNIProxy(t *testing.T) {
 		if len(rec)-5 > 16384 {
 			t.Skip("does not fit one record")
 		}
+		// the version in the record header of a hello is 3.1 with most stacks, 3.3 or 3.2 with some
+		// (crypto/tls takes any of them)
+		if v := rapid.SampledFrom([]byte{1, 1, 3, 2, 3, 0, 4}).Draw(t, "record-version-minor"); v != 1 {
+			rec[2] = v
+			hx.Class(fmt.Sprintf("through-proxy:record-version-3.%d", v))
+		}
 		// application data may follow in the same segment
 		stream := append(append([]byte{}, rec...), rapid.SliceOfN(rapid.Byte(), 0, 64).Draw(t, "trailing")...)
 		if rapid.IntRange(0, 7).Draw(t, "peer-goes-away-early") == 0 {
